@@ -3,7 +3,7 @@ import os, json, re, shutil, hashlib
 import common
 from common import sg, new_report, add_violation, count
 
-JS_LINES = ['foo(1, 2, x);', 'bar(7, [8, 9], 10);', 'foo(x)(y);', 'a.b.c(d, e);', 'g(-x, !y);', 'foo(1)(2)(3);', 'foo(1);', 'foo(foo(2));', 'let a = foo(b) + foo(3);', 'bar(4);', 'foo("é🦀", 5);', 'function f() { return foo(foo(foo(6))); }', '// foo(7)', 'foo(\n  8\n);', 'x = 9;']
+JS_LINES = ['q = [1, 2, 3, 4];', 'foo([5, 6], [7]);', 'foo(1, 2, x);', 'bar(7, [8, 9], 10);', 'foo(x)(y);', 'a.b.c(d, e);', 'g(-x, !y);', 'foo(1)(2)(3);', 'foo(1);', 'foo(foo(2));', 'let a = foo(b) + foo(3);', 'bar(4);', 'foo("é🦀", 5);', 'function f() { return foo(foo(foo(6))); }', '// foo(7)', 'foo(\n  8\n);', 'x = 9;']
 PY_LINES = ['foo(1)', 'y = foo(foo(2))', 'print(3)', 'def g():\n    return foo(4)']
 HTML = ['<div><script>foo(1); bar(foo(2))</script><p>foo</p></div>\n', '<p>text</p><style>a { color: red }</style>\n<script>let v = foo(3)</script>\n', '<p>no code 4</p>\n']
 RULE_POOL = [
@@ -12,6 +12,7 @@ RULE_POOL = [
     {'id': 'js-num', 'language': 'JavaScript', 'rule': {'kind': 'number'}, 'fix': '0'},
     {'id': 'js-num-exp', 'language': 'JavaScript', 'rule': {'kind': 'number', 'inside': {'kind': 'arguments'}}, 'fix': {'template': '', 'expandEnd': {'regex': '^,$'}}},
     {'id': 'js-id-exp', 'language': 'JavaScript', 'rule': {'kind': 'identifier', 'regex': '^[xy]$', 'inside': {'kind': 'arguments'}}, 'fix': {'template': 'ID', 'expandStart': {'regex': '^,$'}}},
+    {'id': 'js-el-both', 'language': 'JavaScript', 'rule': {'kind': 'number', 'inside': {'kind': 'array'}}, 'fix': {'template': '', 'expandStart': {'regex': '^,$'}, 'expandEnd': {'regex': '^,$'}}},
     {'id': 'py-foo', 'language': 'Python', 'rule': {'pattern': 'foo($A)'}, 'fix': 'qux($A)'},
     {'id': 'html-p', 'language': 'Html', 'rule': {'kind': 'element', 'regex': '^<p>'}, 'fix': '<span>replaced</span>'},
     {'id': 'css-decl', 'language': 'Css', 'rule': {'kind': 'declaration'}, 'fix': 'color: blue'},
